@@ -698,6 +698,62 @@ class Extractor:
         out.append('proof fn lemma_decode_sub(little: bool, class: Class, d: Seq<u8>, s: int, e: int, b: int) {\n        match class { Class::ELF32 => { %s } Class::ELF64 => { %s } }\n    }' % (calls('ELF32'), calls('ELF64')))
         return '\n    '.join(out)
 
+    # ---- G3: `*_to_str`: a returned name is the identifier of an exported constant with that value
+    def auto_fn_spec(self, rule, toks, it, mod, fpath):
+        if rule['gen'] != 'to_str_names':
+            raise ExtractError('unknown fn generator %r' % rule['gen'])
+        if not hasattr(self, '_abi_consts'):
+            src = open(os.path.join(self.repo, 'src', 'abi.rs')).read()
+            self._abi_consts = {m.group(1): m.group(2) for m in re.finditer(r'^pub const (\w+): (\w+) =', src, re.M)}
+        fp = fn_parts(toks, it)
+        params = [t for t in toks[fp.params_open + 1:fp.params_close] if t.kind not in ('ws', 'comment')]
+        if len(params) < 3 or params[1].text != ':' or params[2].text not in INT_SIZES:
+            raise ExtractError('%s: to_str generator expects one integer parameter' % fpath)
+        pname, pty = params[0].text, params[2].text
+        lits = []
+        for t in toks[it.body_open:it.body_close]:
+            if t.kind == 'lit' and t.text.startswith('"'):
+                v = t.text[1:-1]
+                if v not in lits: lits.append(v)
+        disj = []
+        for v in lits:
+            if v in self._abi_consts:
+                disj.append('(s == "%s" && x == crate::abi::%s as %s)' % (v, v, pty))
+        sfn = 'names_' + it.name
+        spec = ('pub open spec fn %s(s: &str, x: %s) -> bool {\n    %s\n}\n'
+                % (sfn, pty, '\n    '.join('||| ' + d for d in disj) if disj else 'false'))
+        self.rule('G3')
+        self.pending_ghost_items = getattr(self, 'pending_ghost_items', []) + [spec]
+        return {'path': fpath, 'ret': 'r', 'ensures': [
+            {'label': 'C19.%s.name_is_constant_with_that_value' % it.name, 'own': ['C19'], 'dep': [],
+             'text': 'r is Some ==> %s(r->Some_0, %s)' % (sfn, pname)}]}
+
+    # ---- G4: one compute-checked assertion per exported integer constant that the reference table defines
+    def gen_abi_values(self, toks, items, mod):
+        ref = json.load(open(os.path.join(self.spec.dir, 'abi_reference.json')))['constants']
+        names = []
+        for it in items:
+            if it.kind == 'const' and self.cfg_keep(it):
+                ts = [t.text for t in toks[it.head:it.end] if t.kind not in ('ws', 'comment')]
+                # const NAME : TYPE = ...
+                if len(ts) > 4 and ts[2] == ':' and ts[3] in INT_SIZES or (len(ts) > 4 and ts[3] == 'usize'):
+                    if it.name in ref: names.append(it.name)
+        out = ['// G4: every exported integer constant that glibc <elf.h> / LLVM BinaryFormat define (consistently) has that value',
+               'pub mod abi_values {', 'use vstd::prelude::*;', 'use crate::%s::*;' % mod]
+        mod = 'abi_values'
+        for i in range(0, len(names), 60):
+            out.append('proof fn abi_values_%d() {' % (i // 60))
+            for n in names[i:i + 60]:
+                lab = 'C19.value.%s' % n
+                self.clauses[lab] = dict(own=['C19'], dep=[], text='abi::%s == %d  (reference: %s)' % (n, ref[n]['value'], ref[n]['src']), fn='abi constants', kind='constant value', module=mod)
+                out.append('    assert(%s as int == %d) by (compute_only); /*#%s*/' % (n, ref[n]['value'], lab))
+            out.append('}')
+        out.append('} // mod abi_values')
+        self.rule('G4')
+        self.abi_values_checked = len(names)
+        self.extra_modules = getattr(self, 'extra_modules', []) + ['abi_values']
+        return '\n'.join(out)
+
     # ---- one module
     def process_module(self, mod):
         path = os.path.join(self.repo, 'src', mod + '.rs')
@@ -730,6 +786,11 @@ class Extractor:
                 raise ExtractError('%s: fn path %s is ambiguous' % (mod, fpath))
             fs = fnspecs.get(fpath)
             if fs is not None: self.used_fn_specs.add((mod, fpath))
+            if fs is None:
+                for rule in ms.get('auto_fn', []):
+                    if re.fullmatch(rule['match'], fpath):
+                        fs = self.auto_fn_spec(rule, toks, it, mod, fpath)
+                        break
             text, rec = self.process_fn(toks, it, mod, container, fs, in_trait_impl)
             rec.src_file = 'src/%s.rs' % mod
             rec.src_line = item_src_line(it)
@@ -749,6 +810,9 @@ class Extractor:
                 continue
             if it.kind == 'fn':
                 text, rec = do_fn(it, '')
+                for gi in getattr(self, 'pending_ghost_items', []):
+                    out.append(('raw', None, g(gi) + '\n'))
+                self.pending_ghost_items = []
                 out.append(('fn', rec, _strip_attrs(text)))
             elif it.kind in ('impl', 'trait'):
                 hdr_text = rsx.text_of(toks, it.start, it.body_open + 1)
@@ -820,7 +884,13 @@ class Extractor:
         for h in implspecs:
             if (mod, h) not in self.used_impl_specs:
                 raise ExtractError('%s: spec for impl %r has no matching block in the source (lost anchor)' % (mod, h))
-        return out, ms.get('module', {})
+        mspec = dict(ms.get('module', {}))
+        for gname in mspec.get('generated_bottom', []):
+            if gname == 'abi_values':
+                mspec['after_module'] = mspec.get('after_module', '') + '\n' + self.gen_abi_values(toks, items, mod)
+            else:
+                raise ExtractError('unknown module generator %r' % gname)
+        return out, mspec
 
     # ---- whole unit
     def build(self, modules=None):
@@ -847,6 +917,8 @@ class Extractor:
             if self.canary:
                 chunks.append(('raw', None, g('proof fn canary_axioms_in_scope() { assert(false); /*#CANARY:module:%s*/ }' % m) + '\n'))
             chunks.append(('raw', None, '} // mod %s\n' % m))
+            if mspec.get('after_module'):
+                chunks.append(('raw', None, g(mspec['after_module']) + '\n'))
         chunks.append(('raw', None, '} // verus!\nfn main() {}\n'))
         text = []
         off = 0
@@ -864,7 +936,7 @@ class Extractor:
         scan = []
         for m in re.finditer(r'external_body|assume_specification|admit\s*\(|assume\s*\(|external_type_specification|external_trait_specification|\buninterp\b', full):
             scan.append((li(m.start()), m.group(0)))
-        return GenResult(full, self.fns, self.clauses, self.rules_used, self.dropped, list(mods), scan)
+        return GenResult(full, self.fns, self.clauses, self.rules_used, self.dropped, list(mods) + getattr(self, 'extra_modules', []), scan)
 
 def strip_ghost(text):
     out = []
